@@ -8,5 +8,5 @@ CONSTANTS
   QualOpts <- QNone
 INIT Init
 NEXT Next
-INVARIANTS TypeOK MechEqDecl RowidInv Laws HelperLaws
+INVARIANTS TypeOK MechEqDecl LookupsEqDecl RowidInv Laws HelperLaws
 CHECK_DEADLOCK FALSE
